@@ -163,3 +163,42 @@ mod tests {
         assert_eq!(unescape(&escape("x\n\\y")), "x\n\\y");
     }
 }
+
+/// Reference WRITER of a text-archive image (DESIGN Appendix A), independent of mila: a bin
+/// archive whose data is `[title: Shift-JIS, NUL, pad to 4]` (UTF-16 format only) followed by one
+/// record per entry `[message: Shift-JIS | UTF-16LE code units, NUL | NUL NUL, pad to 4]`, the
+/// entry's key being the label on the record's start address. Stored messages are written as
+/// given (no escaping). Returns None if a title / key / Shift-JIS message is not encodable.
+pub fn write_image(fmt: Fmt, e: End, title: &str, entries: &[(String, String)]) -> Option<Vec<u8>> {
+    let mut c = ref_bin::Content::new(e);
+    let mut d: Vec<u8> = Vec::new();
+    let pad4 = |d: &mut Vec<u8>| {
+        while d.len() % 4 != 0 {
+            d.push(0);
+        }
+    };
+    if fmt == Fmt::Unicode {
+        d.extend(crate::sjis::encode(title)?);
+        d.push(0);
+        pad4(&mut d);
+    }
+    for (k, m) in entries {
+        crate::sjis::encode(k)?;
+        c.labels.entry(d.len()).or_default().push(k.clone());
+        match fmt {
+            Fmt::ShiftJis => {
+                d.extend(crate::sjis::encode(m)?);
+                d.push(0);
+            }
+            Fmt::Unicode => {
+                for u in m.encode_utf16() {
+                    d.extend(u.to_le_bytes());
+                }
+                d.extend([0, 0]);
+            }
+        }
+        pad4(&mut d);
+    }
+    c.data = d;
+    Some(ref_bin::write_canonical(&c))
+}
